@@ -537,9 +537,15 @@ def _maybe_iterate_axes(
     independent_axes = _identify_cross_product_axes(pipeline)
     axes = pipeline.mapspec_axes
     shapes = map_shapes(pipeline, inputs, internal_shapes).shapes
+    n_combinations = 0
     for _fixed_indices in _iterate_axes(independent_axes, inputs, axes, shapes):
         _validate_fixed_indices(_fixed_indices, inputs, pipeline)
+        n_combinations += 1
         yield _fixed_indices
+    if n_combinations == 0:
+        # An independent axis is empty, so there is nothing to split. Without any key
+        # there would be no learners at all, also not for functions unrelated to that axis.
+        yield None
 
 
 def _adaptive_wrapper(
